@@ -8,19 +8,21 @@ use chumsky::extra;
 use chumsky::input::{Input, InputRef, ValueInput};
 use chumsky::prelude::*;
 use chumsky::recovery::{nested_delimiters, skip_then_retry_until, skip_until, via_parser};
-use chumsky::recursive::{Direct, Recursive};
+use chumsky::recursive::{Direct, Indirect, Recursive};
 use chumsky::{Boxed, ConfigIterParser, ConfigParser, IterParser, Parser};
 
 pub type X<E> = extra::Full<E, St, Val>;
 pub type P<'a, I, E> = Boxed<'a, 'a, I, Val, X<E>>;
 pub enum Bound<'a, I: Kind<'a>, E: ErrTy<'a, I>> {
     Rec(Recursive<Direct<'a, 'a, I, Val, X<E>>>),
+    RecI(Recursive<Indirect<'a, 'a, I, Val, X<E>>>),
     Let(P<'a, I, E>, usize),
 }
 impl<'a, I: Kind<'a>, E: ErrTy<'a, I>> Clone for Bound<'a, I, E> {
     fn clone(&self) -> Self {
         match self {
             Bound::Rec(r) => Bound::Rec(r.clone()),
+            Bound::RecI(r) => Bound::RecI(r.clone()),
             Bound::Let(p, n) => Bound::Let(p.clone(), *n),
         }
     }
@@ -695,12 +697,22 @@ where
             }
             p.boxed()
         }
+        G::RecD(body) => {
+            // the same definition through the declare / define API
+            let mut decl = Recursive::<Indirect<'a, 'a, I, Val, X<E>>>::declare();
+            let mut env2 = env.clone();
+            env2.push(Bound::RecI(decl.clone()));
+            let b = build(body, &env2)?;
+            decl.define(b);
+            decl.boxed()
+        }
         G::Ref(k) => {
             if *k == 0 || *k > env.len() {
                 return Err(format!("dangling recursive reference {k}"));
             }
             match &env[env.len() - *k] {
                 Bound::Rec(r) => r.clone().boxed(),
+                Bound::RecI(r) => r.clone().boxed(),
                 Bound::Let(..) => return Err("ref to a let binding".into()),
             }
         }
@@ -717,7 +729,7 @@ where
             }
             match &env[env.len() - *k] {
                 Bound::Let(p, _) => p.clone(),
-                Bound::Rec(_) => return Err("var to a rec binding".into()),
+                Bound::Rec(_) | Bound::RecI(_) => return Err("var to a rec binding".into()),
             }
         }
         G::WithCtx(c, a) => build(a, env)?.with_ctx(c.clone()).boxed(),
